@@ -1039,7 +1039,7 @@ Qed.
 
 Lemma after_app pre post : after (pre ++ post) = fst (run_from true (after pre) post).
 Proof.
-  unfold after. rewrite run_from_app. destruct (run_from true init pre) as [s1 o1].
+  unfold after. rewrite run_from_app. destruct (run_from true init pre) as [s1 o1]. cbn [fst].
   destruct (run_from true s1 post) as [s2 o2]. reflexivity.
 Qed.
 
@@ -1081,3 +1081,61 @@ Proof.
   destruct (run_no_resolve m1 s0 Is0 (proj1 Hokm1) (proj2 Hokm1)) as ([D1 D2 D3 D4 D5] & _).
   rewrite <- Eafter in D4. rewrite F2 in E4. rewrite D4, Hdl in E4. exact E4.
 Qed.
+
+(* ---------- the name rule of the specification is RFC 1035's for ordinary names ---------- *)
+Lemma name_skip_plain lab : forall r, Forall plain_byte lab ->
+  name_skip (lab ++ r) = match name_skip r with Some n => Some (n + len lab) | None => None end.
+Proof.
+  induction lab as [|c lab IH]; intros r H; cbn [app].
+  - rewrite (@len_nil Z). destruct (name_skip r); [f_equal; lia|reflexivity].
+  - inversion H as [|? ? Hc Hl]; subst. unfold plain_byte in Hc. cbn [name_skip].
+    destruct (192 <=? c) eqn:E1; [apply Z.leb_le in E1; lia|].
+    destruct (c =? 0) eqn:E2; [apply Z.eqb_eq in E2; lia|].
+    rewrite (IH r Hl). rewrite len_cons. destruct (name_skip r); [f_equal; lia|reflexivity].
+Qed.
+
+Theorem C20_name_rule_is_rfc_thm : forall p n, rfc_name p n -> name_skip p = Some n.
+Proof.
+  intros p n H. induction H as [r|c r Hc|c lab r n Hc Hl Hp Hr IH]; cbn [name_skip].
+  - reflexivity.
+  - destruct (192 <=? c) eqn:E; [reflexivity|apply Z.leb_gt in E; lia].
+  - destruct (192 <=? c) eqn:E1; [apply Z.leb_le in E1; lia|].
+    destruct (c =? 0) eqn:E2; [apply Z.eqb_eq in E2; lia|].
+    rewrite (name_skip_plain lab r Hp), IH. f_equal. lia.
+Qed.
+
+(* ---------- the code without the repair ---------- *)
+Definition good_reply : list Z :=
+  [0;38; 0;1; 129;128; 0;1; 0;1; 0;0; 0;0; 4;97;98;99;100;0; 0;1;0;1; 192;12; 0;1; 0;1; 0;0;0;60; 0;4; 10;20;30;40].
+Definition witness_fault : list ev := [Resolve [97;98]; Adv 200000; Recv [0;0]].
+Definition witness_stale : list ev :=
+  [Resolve [97;98;99;100]; ConnectCb; Recv good_reply; DisconnectCb; Resolve [97;98]].
+
+Theorem C20_old_code_refuted_thm :
+  (* a name shorter than DOMAIN_MIN_LEN on a fresh device: the retry runs with no request, and a two-byte
+     segment makes the parser read the header outside the received buffer *)
+  In Fault (snd (run_from false init witness_fault)) /\
+  run witness_fault = [CB None] /\
+  (* a short name after a successful resolution is answered with the previous address *)
+  snd (run_from false init witness_stale) =
+    [Disconnect 0; Connect 53 0 [8;8;8;8];
+     Sent 0 0 [0;22; 1;0; 1;0; 0;1; 0;0; 0;0; 0;0; 4;97;98;99;100;0; 0;1;0;1];
+     Disconnect 0; CB (Some [10;20;30;40]); CB (Some [10;20;30;40])] /\
+  run witness_stale =
+    [Disconnect 0; Connect 53 0 [8;8;8;8];
+     Sent 0 0 [0;22; 1;0; 1;0; 0;1; 0;0; 0;0; 0;0; 4;97;98;99;100;0; 0;1;0;1];
+     Disconnect 0; CB (Some [10;20;30;40]); CB None].
+Proof. vm_compute. repeat split; auto. Qed.
+
+(* ---------- non-vacuity ---------- *)
+Lemma good_reply_valid : valid_reply 24 good_reply [10;20;30;40].
+Proof. apply parse_addr_iff; [vm_compute; discriminate | vm_compute; reflexivity | vm_compute; reflexivity]. Qed.
+
+Lemma schedule_example :
+  run [Resolve [97;98;99;100]; Adv 21000000] =
+    [Disconnect 0; Connect 53 0 [8;8;8;8];
+     Disconnect 5000000; Disconnect 5200000; Connect 53 5200000 [1;1;1;1];
+     Disconnect 10200000; Disconnect 10400000; Connect 53 10400000 [8;8;4;4];
+     Disconnect 15400000; Disconnect 15600000; Connect 53 15600000 [1;0;0;1];
+     Disconnect 20600000; CB None].
+Proof. vm_compute. reflexivity. Qed.
